@@ -184,8 +184,8 @@ def struct_type(draw, o, defs, names, depth, kind="struct", name=None, top=False
             pool = [b for b in o["ints"] if b in INT_PACKED] or ["uint8"]
             if o.get("bits_char") and o["char"]:
                 pool = pool + ["char"]
-            if o.get("bits_odd") and not o.get("align_hint"):
-                # 24/48/128-bit storage units (packed mode only: in aligned mode the library lays them out inconsistently)
+            if o.get("bits_odd"):
+                # 24/48/128-bit storage units (a 3-byte unit aligned to 4: the next member follows at +3)
                 pool = pool + [b for b in o["ints"] if b in INT_ODD]
             storage = draw(st.sampled_from(pool))
             if o["enums"] and draw(st.integers(0, 4)) == 0:
